@@ -116,6 +116,13 @@ func (Prop) Gen(r *core.Rand, tier string) interface{} {
 		}
 	}
 	if r.Chance(12) {
+		// note scenario: every task stores and reads back rows of the model whose
+		// field type is its own serializer (scan values come from a per-field pool)
+		for t := range c.Tasks {
+			c.Tasks[t] = append([]Op{{Kind: "note", X: t}, {Kind: "note_find"}}, c.Tasks[t]...)
+		}
+	}
+	if r.Chance(12) {
 		// keeper scenario: some tasks join things with their (soft-deleted) keeper
 		// while others make first use of the keeper model
 		for t := range c.Tasks {
@@ -434,14 +441,14 @@ func runOp(db *gorm.DB, t int, op Op) string {
 		tx := db.Session(&gorm.Session{DryRun: true, SkipDefaultTransaction: true}).Where("age > ?", op.X).Delete(&fam.User{ID: id})
 		return out(tx, drySQL(tx))
 	case "note":
-		n := &fam.Note{ID: id + 80 + uint(op.X%10), Body: "note", Rank: op.X}
+		n := &fam.Note{ID: id + 80 + uint(op.X%10), Body: "note", Rank: op.X, Tag: fam.Sealed(fmt.Sprintf("tag-%d-%d", t, op.X))}
 		return out(db.Create(n), fmt.Sprint(n.ID))
 	case "note_find":
 		var ns []fam.Note
 		tx := db.Where("id BETWEEN ? AND ?", lo, hi).Order("id").Find(&ns)
 		ids := []string{}
 		for _, n := range ns {
-			ids = append(ids, fmt.Sprintf("%d/%d", n.ID, n.Rank))
+			ids = append(ids, fmt.Sprintf("%d/%d/%s", n.ID, n.Rank, n.Tag))
 		}
 		return out(tx, strings.Join(ids, ","))
 	}
